@@ -1,5 +1,22 @@
-(* C17 — property theorems (bootstrap stage; see DESIGN.md section 6). *)
-From Verif Require Import Inflate.
-Theorem C17_spec_inflater_runs : status (inflate [] [3;0]) = Done /\ out (inflate [] [3;0]) = [].
-Proof. vm_compute. split; reflexivity. Qed.
-Print Assumptions C17_spec_inflater_runs.
+(* C17 — property theorems.  Model: WModel/Conc.v (instances as values; a call may read the
+   package-level state and cannot return a new one) + the computed fact, regenerated from /repo's
+   source on every run, that no package-level variable is written outside package initialisation.
+   Data races through assembly, unsafe stores and the Go memory model are outside any Gallina model:
+   they are observed by the stress runs (with and without the race detector).
+   Only statements, each closed by `exact`, followed by Print Assumptions. *)
+From Coq Require Import List Arith.
+From Verif Require Import Conc GeneratedFacts.
+
+(* whatever the interleaving of calls on distinct instances, each instance ends in the state and
+   returns the results of its solo run *)
+Theorem C17_schedule_independent : forall (G inst op out : Type) (istep : G -> inst -> op -> inst * out)
+    (g : G) (sched : list (nat * op)) (s : sys inst) (i : nat),
+  fst (run G inst op out istep g s sched) i = fst (solo G inst op out istep g (s i) (proj i sched)) /\
+  proj i (snd (run G inst op out istep g s sched)) = snd (solo G inst op out istep g (s i) (proj i sched)).
+Proof. exact schedule_independent. Qed.
+Print Assumptions C17_schedule_independent.
+
+(* the hypothesis of that model, as a fact about the source *)
+Theorem C17_globals_only_written_in_init : forallb use_ok Globals.global_uses = true.
+Proof. exact globals_only_written_in_init. Qed.
+Print Assumptions C17_globals_only_written_in_init.
